@@ -130,3 +130,8 @@ e1prop("C19", "XOFs and random streams", "C19.json",
        "random.Bits: for every bit length in the bound, exact in {false,true} and ALL stream bytes: length = ceil(n/8), value < 2^n, top bit forced iff exact, every unforced bit is the stream's bit unchanged (no bias from masking), no panic. random.Int: for every modulus in the bound and all stream bytes, the result is the first candidate below the modulus, every rejected candidate was >= modulus (pure rejection sampling, no modulo step), 0 <= result < modulus; math/big modelled as mathematical integers.",
        ["quick: Bits for bit lengths 0..24, 31..33, 40, 64, 65; Int for moduli {1,2,3,7,8,9,255,256,257,65537}, at most 3 rejection rounds (stated assumption)", "thorough: Bits 0..40, 47..49, 63..65, 72; Int for 23 moduli up to 65537; second solver"],
        ["the sponge/compression functions of BLAKE2/SHAKE and sha256 themselves", "XOF wrapper state machines (xof/blake2xb, blake2xs, keccak): see DESIGN.md, not encoded yet", "Int with more than 3 rejection rounds; moduli above 2^17 (the code path is identical; big.Int is a stub)"])
+
+e1prop("C04", "Decoding untrusted bytes", "C04.json",
+       "point decoders are executed on byte slices of every length in the bound with arbitrary (symbolic) content: every potentially panicking instruction (index, slice bounds, nil dereference, explicit panic) is an obligation 'unreachable'; a successful decode implies the length/format checks and the membership predicate were passed with the decoded coordinates (the predicate of external libraries is a recording stub).",
+       ["edwards25519vartime decodePoint: lengths {0,1,31,32,33} quick, + {2,16,64,65} thorough; P-256 UnmarshalBinary: lengths {0,1,33,64,65,66}"],
+       ["BLS12-381 subgroup checks (external libraries)", "raw bit-level fuzz of the reflective protobuf decoder (reflection is outside E1)", "composite messages (signatures, proofs, ciphertexts, deals) are exercised structurally by the E2 checks of C08-C16 (truncation, replaced fields): not repeated here"])
